@@ -205,7 +205,14 @@ def exec (M : Methods) : Nat → Code → Stack → List Val → R (Val × List 
                 let v ← applyR M n cv [.str "<error>"]
                 pure (v, d)
             | _ => pure (cv, d)
-        | .panic => .panic
+        | .panic => do
+            -- a run-time panic in the try expression is caught like an error (value.GenerateCustom recovers)
+            let (cv, d) ← exec M n c st cs
+            match cv with
+            | .rclos 1 _ _ _ => do
+                let v ← applyR M n cv [.str "<error>"]
+                pure (v, d)
+            | _ => pure (cv, d)
         | .fuel => .fuel
         | .unmodelled => .unmodelled
     | .unary op a => do
